@@ -174,16 +174,18 @@ theorem cookieGetSession_sound (env : TransM.Env) (c : TransM.CookieSessionProvi
               exact ⟨rq, k, rfl, hc, hd⟩
 
 def evBadLogin : Event := ⟨"s.sendLoginForm", ["Invalid username or password"]⟩
+/-- the last event of a translated prefix that ran to its end: the handler goes on -/
+def evContinues : Event := ⟨"(continues)", []⟩
 
 /-- C19 (the credentials branch of `Server.GetSession`, up to the creation of the session): the code goes on to create a session
-    only if the store holds the named user (read without error), the presented password is one that can have been set, and bcrypt
+    (its trace ends with the continuation mark) only if the store holds the named user (read without error), the presented password is one that can have been set, and bcrypt
     accepts it against that user's stored hash; every refusal is the same reply, the login form with the same message, whichever
     check failed — and nothing else is written -/
 theorem credentialGuards_cases (env : TransI.Env) (s : TransI.Server) (w : ResponseWriter) (r : Option HTTPRequest)
     (req : Option TransI.IdpAuthnRequest) (out : Option TransI.Session) (tr : List Event)
     (h : TransI.credentialGuards env s w r req = .ok (out, tr)) :
     ∃ rq, r = some rq ∧ out = none ∧
-      ((tr = [] ∧ ∃ u, env.storeGet_User ("/users/" ++ env.postFormGet rq "user") = .ok (u, none) ∧
+      ((tr = [evContinues] ∧ ∃ u, env.storeGet_User ("/users/" ++ env.postFormGet rq "user") = .ok (u, none) ∧
           env.validPassword (env.postFormGet rq "password") = .ok true ∧
           env.bcryptCompare u.HashedPassword (env.postFormGet rq "password") = none) ∨
        (tr = [evBadLogin] ∧
@@ -226,7 +228,7 @@ theorem credentialGuards_cases (env : TransI.Env) (s : TransI.Server) (w : Respo
               exact ⟨h.1.symm, Or.inr ⟨h.2.symm, Or.inr (Or.inr ⟨u, rfl, by simp [hb]⟩)⟩⟩
             | none =>
               simp [hb] at h
-              exact ⟨h.1.symm, Or.inl ⟨h.2, u, rfl, rfl, hb⟩⟩
+              exact ⟨h.1.symm, Or.inl ⟨h.2.symm, u, rfl, rfl, hb⟩⟩
 
 theorem TransI_no_failures : TransI.transFailures = [] := by decide
 
